@@ -9,12 +9,12 @@ texts = {
  "C04": ("exploration", "Membership transitions with the manager crashed, one call failing or the master dying at sampled call boundaries of the reacting iteration, plus switchovers that fail/are rejected; invariants (a)/(b) before/after every manager iteration on ground truth, membership rules for every published list, eviction guard.", "7/C04, 15.2"),
  "C05": ("exploration", "Reference gate predicate (written from the property text) evaluated at every creation of switch{cause:auto} on what the manager was told.", "7/C05"),
  "C06": ("exploration", "History check over all writes of switch/last_switch/last_rejected_switch under long-failing attempts, aborts and concurrent initiators.", "7/C06"),
- "C07": ("fault_enumeration", "Crash after/before each external call of the managing incarnation (enumerated from a pilot run per scenario), final-state oracle after the successor quiesces.", "7/C07"),
+ "C07": ("fault_enumeration", "Crash after/before each external call of the managing incarnation, or loss of ZooKeeper at that call (enumerated per scenario); final-state oracle after the successor quiesces, and while the run lasts: the cut-off manager makes nothing writable once the successor finished the request.", "7/C07, 15.2"),
  "C08": ("exploration", "Reference decision table for the Lost state vs statements per Lost iteration over a grid of roles/replica conditions.", "7/C08"),
  "C09": ("exploration", "Real CLI enter/leave (full and light) with daemon restarts, ZooKeeper outages, operator SQL and racing requests; no-effective-change monitor over the acknowledged interval (by issue time and awareness of the issuing host), failover suppression in light mode, leave conditions and emergency marker.", "7/C09, 15.2"),
- "C10": ("exploration", "Safety monitors (master unchanged, no statement to decoys, never self, reset only when allowed) + bounded convergence from perturbed states.", "7/C10"),
- "C11": ("exploration", "Mark/clear/active-list/promotion monitors over recovery scenarios.", "7/C11"),
- "C15": ("exploration", "Operation-by-operation refinement of real zkDCS against a reference tree, admissibility under faults, ephemeral lifetime.", "7/C15"),
+ "C10": ("exploration", "Safety monitors (master unchanged, no statement to unregistered or deregistered hosts, never self, reset only within attempt limit and cooldown, stale master marked) + bounded convergence from perturbed states.", "7/C10, 15.2"),
+ "C11": ("exploration", "Mark/clear/active-list/promotion monitors over recovery scenarios (switch away, failover, returning old masters, hosts found claiming to be master with failing re-pointing).", "7/C11, 15.2"),
+ "C15": ("exploration", "Operation-by-operation refinement of real zkDCS against a reference tree, admissibility under faults, ephemeral lifetime; the lock family for the lock as an ephemeral key (reported held only while a live session of the caller owns it).", "7/C15, 15.2"),
  "C16": ("exploration", "Stream-from maps incl. chains, cycles, self and unregistered references with ancestor health scripts; set-valued reference resolution over the pass window and GTID containment at every re-pointing of a cascade server, never self/active/promoted/counted, final convergence, termination watchdog.", "7/C16, 15.2"),
  "C17": ("exploration", "Zone layouts, caps and scripted lag around both thresholds (custom lag query), broken replication, resetup status ages; per-pass policy constraints on every offline_mode statement (thresholds, hysteresis, zone cap with same-pass accumulation, resetup gating, broken-rate limit, master online).", "7/C17, 15.2"),
  "C18": ("exploration", "Disk usage scripts for master and semi-sync replicas through the three zones; reference hysteresis table on the manager's own health reads vs read_only statements at the master and the low-space flag.", "7/C18, 15.2"),
